@@ -140,7 +140,9 @@ PROPS = {
                    "with the goals interned during the call by their number and read from the interner's observation log "
                    "(DESIGN.md B17), not from the Vec.",
         "assumptions": ["lifetimes handed to the unifier are not bound variables (documented: unification panics on them)"],
-        "stubs": ["UnificationDatabase: a stub returning one symbolic declared variance (declared-variance classes) or unreachable"],
+        "stubs": ["UnificationDatabase: a stub returning one symbolic declared variance (declared-variance classes) or unreachable",
+                  "the Unifier is built by the harness as a struct literal with a goal list created before anything is interned "
+                  "(Unifier::new performs the same field initialisation; DESIGN.md B19)"],
         "trusted_base": VINTERNER_TB + ["harness-side recording Zipper", "VInterner observation log (intern_goal records Holds(LifetimeOutlives) goals by value)"],
         "harness_note_default": "variance observed by a recording zipper / outlives goals returned by the unifier equal what the variance dictates",
         "level_text": "Bounded model checking (Kani/CBMC) of the real variance algebra, of the zip_substs / FnSubst "
